@@ -118,7 +118,8 @@ def _work(args):
                                          micro_rng=r if k % 4 == 0 else None,
                                          drain_rng=r if k % 2 == 1 else None,
                                          consumers=k % 4 != 3,
-                                         min_spawns=r.randint(1, 3) if k % 2 == 1 else 0))
+                                         min_spawns=r.randint(1, 3) if k % 2 == 1 else 0,
+                                         extra=k % 3 == 0))
     return out
 
 
@@ -166,6 +167,10 @@ def parse_actions(text):
             acts.append(('K',))
         elif k == 'N':
             acts.append(('N', int(f[1])))
+        elif k == 'R':
+            acts.append(('R', len([x for x in acts if x[0] == 'R'])))
+        elif k == 'A':
+            acts.append(('A', int(f[1]), f[2] == '1'))
     return text.split(';')[0].strip(), acts
 
 
@@ -182,6 +187,10 @@ def evaluate(ctx, runs, res, oracle_fn, tag):
             else:
                 ms = [TG.parse_record(x) for x in model[i].split(' ; ')]
                 for st, (m, rec) in enumerate(zip(ms, recs)):
+                    if acts[st][0] == 'A':
+                        # the model sees "an add of an id that exists": refused (`sr`)
+                        m = (tuple(sorted('rr' + o[2:] if o.startswith('sr') else o for o in m[0])),) \
+                            + tuple(m[1:])
                     if m != TG.rec_key(rec):
                         res.disagreement(case, str(TG.rec_key(rec)), str(m), step=st,
                                          action=str(acts[st]))
